@@ -85,7 +85,11 @@ fn triples_in(text: &str, _inputs: &BTreeMap<String, (String, &'static str)>) ->
 }
 
 fn case_fn(case: &mut Case, base: &Path) -> CaseResult {
+    // how the command is started (working directory, --config-file spelling): drawn first so that it varies
+    let cli_style = case.ch.below(crate::cli::CLI_STYLES);
+    case.label(&format!("cli-style-{cli_style}"));
     let mut po = ProjectOpts::default();
+    po.extend_builtin_scalar = true;
     po.wild_trivia = false;
     let mut gp = gen_project(case, &po);
     let command = *case.ch.pick(&["check", "generate"]);
@@ -108,8 +112,15 @@ fn case_fn(case: &mut Case, base: &Path) -> CaseResult {
                     injected.push(Injected { file: rel, kind: "schema", stage: Stage::Check, what: "field of unknown type" });
                 }
                 1 => {
-                    gp.schema_files[i].1 = format!("{text}scalar DuplicatedScalar{i}\nscalar DuplicatedScalar{i}\n");
-                    injected.push(Injected { file: rel, kind: "schema", stage: Stage::Check, what: "duplicate type definition" });
+                    if case.ch.chance(1, 3) && !injected.iter().any(|x| x.what == "redeclared built-in scalar") {
+                        // the other declaration is the built-in one, which has no position of its own
+                        let b = *case.ch.pick(&["String", "Int", "Float", "Boolean", "ID"]);
+                        gp.schema_files[i].1 = format!("{text}scalar {b}\n");
+                        injected.push(Injected { file: rel, kind: "schema", stage: Stage::Check, what: "redeclared built-in scalar" });
+                    } else {
+                        gp.schema_files[i].1 = format!("{text}scalar DuplicatedScalar{i}\nscalar DuplicatedScalar{i}\n");
+                        injected.push(Injected { file: rel, kind: "schema", stage: Stage::Check, what: "duplicate type definition" });
+                    }
                 }
                 2 => {
                     // half of the time behind a block-string description whose lines start with multi-byte
@@ -141,10 +152,50 @@ fn case_fn(case: &mut Case, base: &Path) -> CaseResult {
                 continue;
             }
             let rel = gp.op_files[i].0.clone();
-            let which = case.ch.below(10);
+            let which = case.ch.below(12);
             let mut doc = gp.op_file_models[i].clone();
             let has_op = doc.iter().any(|d| matches!(d, MExecDef::Op(_)));
             match which {
+                10 | 11 => {
+                    // argument faults (C03 operators: unknown argument, missing required argument, literal of the wrong
+                    // type): their diagnostics involve a position in the schema (the definition of the field) as well
+                    let op = *case.ch.pick(&[6usize, 7, 7, 8]);
+                    let Some(f) = crate::props::c03::inject_which(&mut case.ch, &mut doc, &gp.gs.schema, op) else { continue };
+                    if f.label == "missing-required-argument" && case.ch.flip() {
+                        // no argument list at all
+                        fn clear(sels: &mut [MSelection]) {
+                            for s in sels {
+                                match s {
+                                    MSelection::Field(f) => {
+                                        if f.alias.as_deref() == Some("missing_arg_variant") {
+                                            f.args.clear();
+                                        }
+                                        if let Some(x) = &mut f.sel {
+                                            clear(x);
+                                        }
+                                    }
+                                    MSelection::Inline { sel, .. } => clear(sel),
+                                    _ => {}
+                                }
+                            }
+                        }
+                        for d in doc.iter_mut() {
+                            match d {
+                                MExecDef::Op(o) => clear(&mut o.sel),
+                                MExecDef::Frag(fr) => clear(&mut fr.sel),
+                                _ => {}
+                            }
+                        }
+                    }
+                    gp.op_files[i].1 = canon_op(&doc);
+                    gp.op_file_models[i] = doc;
+                    let what: &'static str = match f.label {
+                        "unknown-argument" => "unknown argument",
+                        "missing-required-argument" => "required argument missing",
+                        _ => "argument literal of the wrong type",
+                    };
+                    injected.push(Injected { file: rel, kind: "operation", stage: Stage::Check, what });
+                }
                 0 | 1 | 2 if has_op => {
                     let o = first_op_mut(&mut doc).unwrap();
                     let what = match which {
@@ -286,7 +337,7 @@ fn case_fn(case: &mut Case, base: &Path) -> CaseResult {
         "faults": injected.iter().map(|f| json!({"file": f.file, "what": f.what})).collect::<Vec<_>>(),
         "files": gp.schema_files.iter().chain(gp.op_files.iter()).map(|(p, t)| json!({"path": p, "text": t})).collect::<Vec<_>>()});
     let before = proj.snapshot();
-    let run = run_cli(&cwd, &[command, "--output-format", format]);
+    let run = crate::cli::run_cli_styled(&cwd, &[command, "--output-format", format], cli_style);
     let after = proj.snapshot();
     let res = (|| -> CaseResult {
         let fail = |sig: &str, msg: String| Failure::new(sig, msg, json!({"detail": detail, "status": run.status, "stdout": run.stdout, "stderr": strip_ansi(&run.stderr)}));
@@ -414,9 +465,11 @@ fn case_fn(case: &mut Case, base: &Path) -> CaseResult {
                     if f.kind == "operation" && schema_faulty {
                         continue; // operations are not checked against an invalid schema
                     }
-                    if f.what == "import of a missing file" || f.what == "duplicate type definition" {
+                    // (a built-in scalar defined again is a duplicate definition too)
+                    let is_dup = |w: &str| w == "duplicate type definition" || w == "redeclared built-in scalar";
+                    if f.what == "import of a missing file" || is_dup(f.what) {
                         // resolution errors stop at the first one of their stage
-                        let same_stage = injected.iter().filter(|g| g.what == f.what).count();
+                        let same_stage = injected.iter().filter(|g| g.what == f.what || (is_dup(g.what) && is_dup(f.what))).count();
                         if same_stage > 1 {
                             continue;
                         }
@@ -425,7 +478,7 @@ fn case_fn(case: &mut Case, base: &Path) -> CaseResult {
                     if f.kind == "operation" && f.what != "import of a missing file" && injected.iter().any(|g| g.what == "import of a missing file") {
                         continue;
                     }
-                    if f.kind == "schema" && f.what != "duplicate type definition" && injected.iter().any(|g| g.what == "duplicate type definition") {
+                    if f.kind == "schema" && !is_dup(f.what) && injected.iter().any(|g| is_dup(g.what)) {
                         continue;
                     }
                     let abs = norm(&proj.path(&f.file).to_string_lossy());
